@@ -14,6 +14,7 @@ from common import *
 Group('subarray', ['boost/multi/array.hpp'], prelude='''
 template<multi::dimensionality_type D> using CS = multi::const_subarray<double, D, double*>;
 template<multi::dimensionality_type D> using MS = multi::subarray<double, D, double*>;
+template<multi::dimensionality_type D> using CC = multi::const_subarray<double, D, double const*>;
 ''')
 
 def CSn(D): return r'boost::multi::const_subarray<double, %dl, double\*, boost::multi::layout_t<%dl, long> >' % (D, D)
@@ -77,6 +78,23 @@ for D in (1, 2, 3):
                         'IMPLIES(0 <= g_p && g_p < last - first, %s == %s)' % (addr0('ret', first_index('ret') + ' + g_p'), addr0('self', 'first + g_p')))],
               covers=['first == last && first == g_f0 + g_n0', 'g_n0 == 0', 'g_n0 == 1 && last == first + 1', 'g_p == last - first - 1 && g_p > 2'],
               assigns=['*ret'], mode='uf')
+        # ---------------------------------------------------------------- call syntax with open ranges: A(_), A(_ < last), A(first <= _)
+        # (the whole closure: intersecting_range, intersection with extension(), paren_aux_, sliced; the wrapper is the function under contract)
+        for pn, arg, ptxt, lo_, hi_, extra_req in (('paren_all', 'multi::_', '', 'g_f0', 'g_f0 + g_n0', []),
+                                                 ('paren_upto', 'multi::_ < last', ', multi::index last', 'g_f0', 'last', ['g_f0 <= last && last <= g_f0 + g_n0']),
+                                                 ('paren_from', 'first <= multi::_', ', multi::index first', 'first', 'g_f0 + g_n0', ['g_f0 <= first && first <= g_f0 + g_n0'])):
+            Check('S%d_%s%s' % (D, pn, suf), props[:1], 'subarray', fn='w_S%d_%s%s' % (D, pn, suf), params=['ret', 'self'] + (['last'] if 'last' in ptxt else ['first'] if 'first' in ptxt else []),
+                  wrapper=('void', '%s<%d>* ret, CS<%d> const* self%s' % ('CC' if D == 1 else 'CS', D, D, ptxt), 'new(ret) %s<%d>((*self)(%s));' % ('CC' if D == 1 else 'CS', D, arg)),
+                  cxx={'self': SUB(D), 'ret': CSUB(D) if D == 1 else SUB(D)}, ghosts=ghosts_fn(D) + [(I64, 'g_p')],
+                  requires=base_req + zreq + ['INR(g_p)', 'g_n0 > 0', '%s == 0 && %s == 1' % (lp('self', D, 'offset_'), lp('self', D, 'nelems_'))] + extra_req,
+                  lemmas=WF_lemmas('self', D) + zlem + ['LEMMA_DIST(g_f0, g_p, self->stride_)', 'LEMMA_DIST(%s, g_p, self->stride_)' % lo_, 'LEMMA_COMM(self->stride_, (%s) - (%s))' % (hi_, lo_),
+                                                    'LEMMA_MULDIV(g_n0, self->stride_)', 'LEMMA_COMM(g_n0, self->stride_)', 'LEMMA_MULDIV(self->stride_, g_n0)', 'LEMMA_MUL0(self->stride_)'],
+                  ensures=[('stride kept, inner dimensions untouched', 'ret->stride_ == self->stride_ && ' + inner_same),
+                           ('the open range selects exactly the indices of the extension it covers: size', 'ret->nelems_ == MUL((%s) - (%s), ret->stride_) && REM(ret->offset_, ret->stride_) == 0' % (hi_, lo_)),
+                           ('p-th element of the result is the element of self with index (lower end of the selection) + p',
+                            'IMPLIES(0 <= g_p && g_p < (%s) - (%s), %s == %s)' % (hi_, lo_, addr0('ret', first_index('ret') + ' + g_p'), addr0('self', '(%s) + g_p' % lo_)))],
+                  covers=['g_f0 < 0 && g_n0 > 2' if not zb else 'g_n0 > 2', 'g_p > 1'],
+                  assigns=['*ret'], mode='uf', solvers=('cvc5', 'cadical'), timeout=900)
         # ---------------------------------------------------------------- dropped(n) / taked(n)
         Check('S%d_dropped%s' % (D, suf), props, 'subarray',
               fn_re=CSn(D) + r'::dropped_aux_\(long\) const', params=['ret', 'self', 'n'],
